@@ -423,10 +423,9 @@ pub struct RealLiteral {
 
 impl RealLiteral {
     pub fn try_parse(a: &str, tn: Option<ElementaryTypeName>) -> Result<Self, &'static str> {
-        let (r, remainder): (Vec<_>, Vec<_>) = a
-            .chars()
-            .filter(|c| *c != '_')
-            .partition(|c| c.is_ascii_digit() || *c == '.' || *c == 'E' || *c == 'e' || *c == '-');
+        let (r, remainder): (Vec<_>, Vec<_>) = a.chars().filter(|c| *c != '_').partition(|c| {
+            c.is_ascii_digit() || *c == '.' || *c == 'E' || *c == 'e' || *c == '-' || *c == '+'
+        });
         if !remainder.is_empty() {
             return Err("Non-real characters");
         }
